@@ -276,6 +276,7 @@ def reviewedGuards : List (String × String × String × String × String) := [
   ("src/fqe/wavefunction.py", "Wavefunction.apply_generated_unitary", "raise", "RuntimeError", "algo == 'taylor'"),
   ("src/fqe/wavefunction.py", "Wavefunction.apply_generated_unitary", "assert", "AssertionError", "spec_lim"),
   ("src/fqe/wavefunction.py", "Wavefunction.apply_generated_unitary", "raise", "RuntimeError", "algo == 'chebyshev' && not (algo == 'taylor')"),
+  ("src/fqe/wavefunction.py", "Wavefunction.read", "raise", "TypeError", "not isinstance(sector[1], FqeData)"),
   ("src/fqe/wavefunction.py", "Wavefunction.set_wfn", "raise", "ValueError", "strategy == 'from_data' and (not raw_data)"),
   ("src/fqe/wavefunction.py", "Wavefunction.set_wfn", "raise", "ValueError", "numpy.shape(data) != (sector.lena(), sector.lenb()) && strategy == 'from_data'"),
   ("src/fqe/wavefunction.py", "Wavefunction.set_wfn", "raise", "ValueError", "len(self.sectors()) != 1 && strategy == 'hartree-fock'"),
